@@ -168,7 +168,7 @@ Definition spec_op (rv : bool) (ms : list metric) (pis : list pinfo) (ss : sstat
                 | _ => ss_ready ss end in
   let stops := match d with XShutdown p _ => [p] | _ => [] end in
   let views' := match d with
-                | XFreeze p => aput p (ss_peers ss) (ss_views ss)
+                | XFreeze p => match aget p (ss_views ss) with Some _ => ss_views ss | None => aput p (ss_peers ss) (ss_views ss) end
                 | XThaw p => adel p (ss_views ss)
                 | _ => ss_views ss end in
   let ss1 := mk_sstate st' peers_after running_after views'
